@@ -490,7 +490,172 @@ func c10GenPolicy(r *Rng) *c10Policy {
 	return p
 }
 
+// c10GenSanePatch draws a patch that a composition author could have written: valid type,
+// an existing (or plausible) source, a destination under spec/status/metadata, a transform
+// chain that suits the source value. Policies and merge options still vary freely.
+func c10GenSanePatch(r *Rng, xr, cd map[string]any) (*c10Patch, []string) {
+	p := &c10Patch{Type: Pick(r, []string{"", "FromCompositeFieldPath", "FromCompositeFieldPath", "ToCompositeFieldPath", "ToCompositeFieldPath", "CombineFromComposite", "CombineToComposite"})}
+	src, dst := xr, cd
+	if p.Type == "ToCompositeFieldPath" || p.Type == "CombineToComposite" {
+		src, dst = cd, xr
+	}
+	p.Policy = c10GenPolicy(r)
+	existing := func(obj map[string]any, wild bool) string {
+		var all []c10Walk
+		c10Paths(obj, nil, &all)
+		if len(all) <= 1 {
+			return "spec"
+		}
+		w := Pick(r, all[1:])
+		wildAt := -1
+		if wild && r.Chance(1, 3) {
+			for i, s := range w.segs {
+				if strings.HasPrefix(s, "#") && r.Bool() {
+					wildAt = i
+				}
+			}
+		}
+		return c10RenderPath(r, w.segs, wildAt)
+	}
+	fresh := func() string {
+		base := Pick(r, []string{"spec", "spec.forProvider", "status", "metadata.annotations", "metadata.labels", "spec.list[2]", "spec.m"})
+		return base + Pick(r, []string{".new", ".a", "[k.dotted]", ".deep.er", ".arr[1]", ".arr[0].x"})
+	}
+	var hint any
+	if p.Type == "CombineFromComposite" || p.Type == "CombineToComposite" {
+		c := &c10Combine{Strategy: "string", Vars: []c10Path{}}
+		n := r.Range(1, 3)
+		for i := 0; i < n; i++ {
+			if r.Chance(1, 10) {
+				c.Vars = append(c.Vars, c10Path{Raw: "spec.missing"})
+			} else {
+				c.Vars = append(c.Vars, c10Path{Raw: existing(src, false)})
+			}
+		}
+		c.Fmt = c10P(Pick(r, []string{"%s", "%s-%s", "%v-%v-%v", "%v/%v", "%d-%s", "x-%v"}))
+		p.Combine = c
+		p.To = &c10Path{Raw: fresh()}
+		hint = "abc"
+	} else {
+		if r.Chance(1, 8) {
+			p.From = &c10Path{Raw: "spec.missing." + Pick(r, c10Keys)}
+		} else {
+			p.From = &c10Path{Raw: existing(src, false)}
+		}
+		if v, ok := c10ValueAt(src, p.From.Raw); ok {
+			hint = v
+		}
+		switch r.Intn(4) {
+		case 0:
+		case 1:
+			p.To = &c10Path{Raw: existing(dst, true)}
+		default:
+			p.To = &c10Path{Raw: fresh()}
+		}
+	}
+	p.Xfs = c10GenSaneChain(r, hint)
+	return p, nil
+}
+
+// c10GenSaneChain draws 0-3 well-configured transforms that fit the value they get.
+func c10GenSaneChain(r *Rng, input any) []c10Xf {
+	n := Pick(r, []int{0, 0, 1, 1, 1, 2, 2, 3})
+	cur := input
+	var xfs []c10Xf
+	for i := 0; i < n; i++ {
+		var t c10Xf
+		switch v := cur.(type) {
+		case int64:
+			switch r.Intn(4) {
+			case 0, 1:
+				m := &c10Math{Type: Pick(r, []string{"", "Multiply", "ClampMin", "ClampMax"})}
+				x := c10P(Pick(r, []int64{0, 1, -1, 2, 3, 10, -7, 1000, 1 << 40}))
+				switch m.Type {
+				case "ClampMin":
+					m.ClampMin = x
+				case "ClampMax":
+					m.ClampMax = x
+				default:
+					m.Multiply = x
+				}
+				t = c10Xf{Type: "math", Math: m}
+			case 2:
+				to := Pick(r, []string{"string", "bool", "float64", "int"})
+				t = c10Xf{Type: "convert", Convert: &c10Convert{ToType: to}}
+				cur = map[string]any{"string": "1", "bool": true, "float64": 1.5, "int": int64(1)}[to]
+			default:
+				t = c10Xf{Type: "string", String: &c10String{Type: "Format", Fmt: c10P(Pick(r, []string{"%d", "n-%d", "%v", "%05d", "%s"}))}}
+				cur = "abc"
+			}
+		case float64:
+			switch r.Intn(3) {
+			case 0:
+				t = c10Xf{Type: "math", Math: &c10Math{Type: "Multiply", Multiply: c10P(Pick(r, []int64{2, -1, 10}))}}
+			case 1:
+				t = c10Xf{Type: "math", Math: &c10Math{Type: "ClampMax", ClampMax: c10P(Pick(r, []int64{0, 2, 100}))}}
+			default:
+				to := Pick(r, []string{"string", "int64", "bool"})
+				t = c10Xf{Type: "convert", Convert: &c10Convert{ToType: to}}
+				cur = map[string]any{"string": "1", "bool": true, "int64": int64(1)}[to]
+			}
+		case bool:
+			to := Pick(r, []string{"string", "int64", "float64"})
+			t = c10Xf{Type: "convert", Convert: &c10Convert{ToType: to}}
+			cur = map[string]any{"string": "true", "float64": 1.5, "int64": int64(1)}[to]
+		case []any:
+			t = c10Xf{Type: "string", String: &c10String{Type: "Join", Join: c10P(Pick(r, []string{",", "-", ""}))}}
+			cur = "abc"
+		case string:
+			switch r.Intn(8) {
+			case 0:
+				mp := &c10Map{Pairs: []c10MapPair{{K: v, V: c10Raw{K: "val", Src: Pick(r, c10RawSrcs[:12])}}, {K: "other", V: c10Raw{K: "val", Src: `"o"`}}}}
+				t = c10Xf{Type: "map", Map: mp}
+				cur = "abc"
+			case 1:
+				m := &c10Match{FallbackTo: Pick(r, []string{"Value", "Input", ""}), FallbackValue: c10Raw{K: "nil"}}
+				if m.FallbackTo != "Input" {
+					m.FallbackValue = c10Raw{K: "val", Src: `"fallback"`}
+				}
+				m.Patterns = []c10Pattern{
+					{Type: "literal", Literal: c10P(Pick(r, []string{v, "zzz"})), Result: c10Raw{K: "val", Src: Pick(r, c10RawSrcs[:12])}},
+					{Type: "regexp", Regexp: c10P(Pick(r, []string{"^a.*", "[0-9]+", ".*", "^$"})), Result: c10Raw{K: "val", Src: `"re"`}},
+				}
+				t = c10Xf{Type: "match", Match: m}
+				cur = "abc"
+			case 2:
+				to := Pick(r, []string{"int64", "bool", "float64", "int"})
+				c := &c10Convert{ToType: to}
+				if to == "float64" && r.Bool() {
+					c.Format = c10P("quantity")
+				}
+				t = c10Xf{Type: "convert", Convert: c}
+				cur = map[string]any{"int": int64(1), "bool": true, "float64": 1.5, "int64": int64(1)}[to]
+			case 3:
+				t = c10Xf{Type: "string", String: &c10String{Type: Pick(r, []string{"TrimPrefix", "TrimSuffix"}), Trim: c10P(Pick(r, []string{"", "a", "abc", "foo-", "-bar", "prefix-", "-suffix", "Hello", "eu-", "x", "1"}))}}
+			case 4:
+				rg := &c10Regexp{Match: Pick(r, []string{"^(\\w+)-(\\w+)", "[0-9]+", ".*", "^([a-z]+)-([a-z]+)-([0-9]+)", "(a)|(b)"})}
+				if r.Bool() {
+					rg.Group = c10P(int64(r.Intn(4)))
+				}
+				t = c10Xf{Type: "string", String: &c10String{Type: "Regexp", Regexp: rg}}
+			case 5:
+				t = c10Xf{Type: "string", String: &c10String{Type: "Convert", Convert: c10P(Pick(r, c10StrConverts[:9]))}}
+			default:
+				t = c10Xf{Type: "string", String: &c10String{Type: "Format", Fmt: c10P(Pick(r, []string{"%s", "pre-%s", "%v-x", "%q", "%10s|"}))}}
+			}
+		default:
+			t = c10Xf{Type: "string", String: &c10String{Type: "Convert", Convert: c10P(Pick(r, []string{"ToJson", "ToSha256", "ToUpper"}))}}
+			cur = "abc"
+		}
+		xfs = append(xfs, t)
+	}
+	return xfs
+}
+
 func c10GenPatchFor(r *Rng, xr, cd map[string]any) (*c10Patch, []string) {
+	if r.Chance(1, 2) {
+		return c10GenSanePatch(r, xr, cd)
+	}
 	p := &c10Patch{}
 	p.Type = Pick(r, []string{"", "FromCompositeFieldPath", "FromCompositeFieldPath", "ToCompositeFieldPath", "ToCompositeFieldPath", "CombineFromComposite", "CombineToComposite", "PatchSet", "Bogus"})
 	if p.Type == "PatchSet" || p.Type == "Bogus" {
